@@ -27,9 +27,12 @@ def wants_x(c):
 
 encode = iomodel.encode
 render = iomodel.render
+canon = iomodel.canon
 
 
 def impl(c):
+    if c["op"] in iomodel.MODEL_OPS:
+        return iomodel.impl(c)
     g, fmt = c["tg"], c["fmt"]
     r1 = ioops.save_text(g, fmt, c["blanks"], via_file=True)
     out = {"save": r1}
@@ -66,6 +69,8 @@ def expected_tiers(c):
 
 
 def oracle(c, r):
+    if c["op"] in iomodel.MODEL_OPS:
+        return None          # model-correspondence case: compared with the Lean model only
     g, fmt = c["tg"], c["fmt"]
     kw, place = ioops.keyword_place(g, fmt)
     sig = {"op": "roundtrip", "fmt": fmt}
@@ -105,6 +110,8 @@ def oracle(c, r):
 
 
 def tags(c, r):
+    if c["op"] in iomodel.MODEL_OPS:
+        return ["model:" + c["op"]] + (["err:" + r[1]] if r[0] == "err" else [])
     out = [c["fmt"], "blanks:%s" % c["blanks"], "iei:%s" % c["iei"], c.get("stream", "plain")]
     for k in ("save", "open"):
         if k in r and r[k][0] == "err":
@@ -113,6 +120,8 @@ def tags(c, r):
 
 
 def nontrivial(c, r):
+    if c["op"] in iomodel.MODEL_OPS:
+        return True
     return any(t["es"] for t in c["tg"]["tiers"])
 
 
@@ -155,6 +164,26 @@ def corpus():
 
 
 def gen(rnd, tier):
+    for c in gen_main(rnd, tier):
+        yield c
+        yield from derived(c, rnd)
+
+
+def derived(c, rnd):
+    """model-correspondence cases derived from one round-trip case: the emitted text and its parse"""
+    if c["fmt"] not in ("short_textgrid", "long_textgrid"):
+        return
+    kw = c.get("stream") == "keyword"
+    yield {"op": "emit", "tg": c["tg"], "fmt": c["fmt"], "blanks": c["blanks"], "minlen": 1e-8}
+    r = ioops.save_text(c["tg"], c["fmt"], c["blanks"], via_file=False)
+    if r[0] == "ok":
+        p = {"op": "parse", "text": r[1], "iei": c["iei"]}
+        if kw:
+            p["anyerr"] = True
+        yield p
+
+
+def gen_main(rnd, tier):
     n = 30000 if tier == "thorough" else 2500
     for i in range(n):
         kw = rnd.random() < 0.12
